@@ -59,6 +59,10 @@ func (h *hasher) val(v Value) {
 		h.sb.WriteString("J(")
 		h.val(v.V)
 		h.sb.WriteString(")")
+	case *JSONLeaf:
+		h.sb.WriteString("JL(" + v.Kind + ":")
+		h.val(v.V)
+		h.sb.WriteString(")")
 	case *StrBlob:
 		h.sb.WriteString("SB(")
 		h.val(v.S)
